@@ -17,6 +17,7 @@ type MTPlan struct {
 	Tight      bool    `json:"tight,omitempty"` // default (short) max delays: expiry may happen, limit clause off
 	Submitters int     `json:"submitters"`
 	Subs       []MTSub `json:"subs"`
+	QCap       int     `json:"qcap,omitempty"` // capacity of the clearance queues (0: as shipped, GOMAXPROCS*100)
 }
 
 // MTSub is one microtask submission.
@@ -38,6 +39,9 @@ func genMT(rng *rand.Rand, tier string) *MTPlan {
 	n := 1 + rng.IntN(40)
 	if tier == "thorough" && rng.IntN(3) == 0 {
 		n = 1 + rng.IntN(120)
+	}
+	if rng.IntN(2) == 0 {
+		p.QCap = 1 + rng.IntN(3)
 	}
 	var kinds []string
 	for _, k := range mtKinds {
@@ -91,6 +95,10 @@ func execMT(p *MTPlan, rc *simkit.RunCtx) {
 	s := &mtState{p: p, rc: rc, execs: make([]int, len(p.Subs)), ended: make([]int, len(p.Subs)), rets: make([]error, len(p.Subs)), retSet: make([]bool, len(p.Subs))}
 	rc.Data = s
 	modules.SetMaxConcurrentMicroTasks(p.Limit)
+	if p.QCap > 0 {
+		modules.VerifSimSetClearanceQueue(p.QCap)
+		rc.Probe("small-clearance-queue")
+	}
 	s.m = modules.Register("m00", nil, func() error { return nil }, func() error { return nil })
 	if err := modules.Start(); err != nil {
 		rc.Fail("C15.harness", "Start failed", err.Error())
